@@ -9,6 +9,7 @@ tied to `src/bgp/fsm/session.rs` by the exhaustive correspondence run of
 `./check C08`.
 -/
 import Rc.Model.Fsm
+import Rc.Model.Timer
 
 namespace Rc.Thm.C08
 open Rc Rc.Fsm
@@ -1168,5 +1169,680 @@ theorem notif_queued_partial (cfg : Cfg) (s : St) (e : Event) (s' : St) (ok : Bo
   exact step_notif_conforms cfg s e s' ok outs h
 
 example : pduCount [Out.pduNotification 4 0] ≤ 1 := by decide
+
+/-! ## the timer branches of `Session::tick`: `Clock` and `tickTimer` -/
+
+/-- the three timers `Session::tick` polls -/
+inductive Tmr where
+  | ka | hold | dop
+  deriving DecidableEq, Repr
+
+/-- the expiry event `tick` raises for a timer (session.rs:326-334) -/
+def Tmr.event : Tmr → Event
+  | .ka => .keepaliveTimerExpires
+  | .hold => .holdTimerExpires
+  | .dop => .delayOpenTimerExpires
+
+/-- the timer's next tick on the clock -/
+def clockGet (c : Clock) : Tmr → Option Nat
+  | .ka => c.ka
+  | .hold => c.hold
+  | .dop => c.dop
+
+/-- the timer's running flag in the session state (`Timer::is_running`) -/
+def running (s : St) : Tmr → Bool
+  | .ka => s.ka
+  | .hold => s.hold
+  | .dop => s.dop
+
+/-- The clock is consistent with the session state: a timer has a next tick only if it is running. -/
+def ClockOk (s : St) (c : Clock) : Prop :=
+  ∀ x t, clockGet c x = some t → running s x = true
+
+private theorem dueAt_some {now i t : Nat} (h : dueAt now i = some t) : now < t := by
+  unfold dueAt at h; split at h <;> simp at h; omega
+
+private theorem clockAct_now (cfg : Cfg) (s : St) (c : Clock) (a : Act) : (clockAct cfg s c a).now = c.now := by
+  cases a <;> simp [clockAct] <;> split <;> rfl
+
+private theorem clockExec_now (cfg : Cfg) (o : OpenInfo) : ∀ (acts : List Act) (s : St) (c : Clock),
+    (clockExec cfg o s c acts).now = c.now := by
+  intro acts
+  induction acts with
+  | nil => intro s c; rfl
+  | cons a rest ih => intro s c; simp [clockExec, ih, clockAct_now]
+
+private theorem clockAct_ok (cfg : Cfg) (o : OpenInfo) (s : St) (c : Clock) (a : Act) (h : ClockOk s c) :
+    ClockOk (execAct cfg o s a).1 (clockAct cfg s c a) := by
+  have hka := h .ka; have hhold := h .hold; have hdop := h .dop
+  simp only [clockGet, running] at hka hhold hdop
+  intro x t hx
+  cases a <;> cases x <;> simp [clockAct, execAct, clockGet, running, dueAt] at hx ⊢ <;> grind
+
+private theorem clockExec_ok (cfg : Cfg) (o : OpenInfo) : ∀ (acts : List Act) (s : St) (c : Clock), ClockOk s c →
+    ClockOk (exec cfg o s acts).1 (clockExec cfg o s c acts) := by
+  intro acts
+  induction acts with
+  | nil => intro s c h; exact h
+  | cons a rest ih =>
+    intro s c h
+    simp only [exec, clockExec]
+    exact ih _ _ (clockAct_ok cfg o s c a h)
+
+private theorem step_exec (cfg : Cfg) (s s' : St) (e : Event) (ok : Bool) (outs : List Out)
+    (hs : step cfg s e = .next s' ok outs) : s' = (exec cfg (openOf e) s (actsOfEvent cfg s e)).1 := by
+  simp only [step, actsOfEvent] at hs ⊢
+  split at hs <;> simp_all
+
+/-- the state after an input is the state after the statements of the arm of the event it raises -/
+private theorem handleInput_exec (cfg : Cfg) (s s' : St) (i : Input) (ok : Bool) (outs : List Out)
+    (h : handleInput cfg s i = .next s' ok outs) :
+    match inputEvent cfg s i with
+    | some e => s' = (exec cfg (openOf e) s (actsOfEvent cfg s e)).1
+    | none => s'.ka = s.ka ∧ s'.hold = s.hold ∧ s'.dop = s.dop ∧ s'.state = s.state := by
+  have key : ∀ e ok1 outs1, step cfg s e = .next s' ok1 outs1 → s' = (exec cfg (openOf e) s (actsOfEvent cfg s e)).1 :=
+    fun e ok1 outs1 hs => step_exec cfg s s' e ok1 outs1 hs
+  cases i with
+  | ev e => exact key e ok outs h
+  | msgOpen o => exact key _ ok outs h
+  | msgKeepalive => exact key _ ok outs h
+  | msgUpdate n =>
+    simp only [handleInput] at h
+    cases hs : step cfg s .updateMsg with
+    | todo => simp [hs] at h
+    | panic => simp [hs] at h
+    | next s2 ok2 outs2 =>
+      cases ok2 <;> simp [hs] at h <;> exact key _ _ _ (by rw [hs, h.1])
+  | msgNotification code sub =>
+    simp only [handleInput] at h
+    cases hs : step cfg s (notifEvent code sub) with
+    | todo => simp [hs] at h
+    | panic => simp [hs] at h
+    | next s2 ok2 outs2 => simp [hs] at h; exact key _ _ _ (by rw [hs, h.1])
+  | msgRouteRefresh => simp only [handleInput] at h; injection h with h1; subst h1; simp [inputEvent]
+  | attach => simp only [handleInput] at h; injection h with h1; subst h1; simp [inputEvent]
+  | apiStart =>
+    simp only [handleInput] at h
+    cases hs : step cfg s (startEvent cfg) with
+    | todo => simp [hs] at h
+    | panic => simp [hs] at h
+    | next s2 ok2 outs2 => simp [hs] at h; exact key _ _ _ (by rw [hs, h.1])
+  | apiConn =>
+    simp only [handleInput] at h
+    cases hs : step cfg s .tcpConnectionConfirmed with
+    | todo => simp [hs] at h
+    | panic => simp [hs] at h
+    | next s2 ok2 outs2 => simp [hs] at h; exact key _ _ _ (by rw [hs, h.1])
+
+/-- `ClockOk` is kept by every input the session handles … -/
+theorem clockOk_input (cfg : Cfg) (s s' : St) (c : Clock) (i : Input) (ok : Bool) (outs : List Out)
+    (hc : ClockOk s c) (h : handleInput cfg s i = .next s' ok outs) : ClockOk s' (clockInput cfg s c i) := by
+  have hx := handleInput_exec cfg s s' i ok outs h
+  unfold clockInput
+  cases he : inputEvent cfg s i with
+  | some e => simp only [he] at hx ⊢; rw [hx]; exact clockExec_ok cfg _ _ s c hc
+  | none =>
+    simp only [he] at hx ⊢
+    intro x t hxt
+    have := hc x t hxt
+    cases x <;> simp_all [running]
+
+/-- … and holds for the clock of a session whose timers were started at time 0. -/
+theorem clockOk_ofSt (cfg : Cfg) (s : St) : ClockOk s (Clock.ofSt cfg s) := by
+  intro x t hx
+  cases x <;> simp [Clock.ofSt, clockGet, running, dueAt] at hx ⊢ <;> grind
+
+
+/-- the candidates `tickTimer` chooses from -/
+def cands (c : Clock) : List (Nat × Event) :=
+  (match c.ka with | some t => [(t, Event.keepaliveTimerExpires)] | none => []) ++
+  (match c.hold with | some t => [(t, Event.holdTimerExpires)] | none => []) ++
+  (match c.dop with | some t => [(t, Event.delayOpenTimerExpires)] | none => [])
+
+private theorem mem_cands (c : Clock) (t : Nat) (e : Event) :
+    (t, e) ∈ cands c ↔ ∃ x, e = x.event ∧ clockGet c x = some t := by
+  constructor
+  · intro h
+    simp only [cands, List.mem_append] at h
+    rcases h with (h | h) | h
+    · cases hk : c.ka with
+      | none => simp [hk] at h
+      | some t' => simp [hk] at h; obtain ⟨rfl, rfl⟩ := h; exact ⟨.ka, rfl, by simp [clockGet, hk]⟩
+    · cases hk : c.hold with
+      | none => simp [hk] at h
+      | some t' => simp [hk] at h; obtain ⟨rfl, rfl⟩ := h; exact ⟨.hold, rfl, by simp [clockGet, hk]⟩
+    · cases hk : c.dop with
+      | none => simp [hk] at h
+      | some t' => simp [hk] at h; obtain ⟨rfl, rfl⟩ := h; exact ⟨.dop, rfl, by simp [clockGet, hk]⟩
+  · rintro ⟨x, rfl, hx⟩
+    cases x <;> simp [clockGet] at hx <;> simp [cands, Tmr.event, hx]
+
+private theorem foldMin (l : List (Nat × Event)) : ∀ (b : Nat × Event),
+    let r := l.foldl (fun (b : Nat × Event) x => if x.1 < b.1 then x else b) b
+    (r = b ∨ r ∈ l) ∧ r.1 ≤ b.1 ∧ ∀ x ∈ l, r.1 ≤ x.1 := by
+  induction l with
+  | nil => intro b; simp
+  | cons a rest ih =>
+    intro b
+    simp only [List.foldl_cons]
+    by_cases hab : a.1 < b.1
+    · simp only [hab, if_true]
+      obtain ⟨h1, h2, h3⟩ := ih a
+      refine ⟨?_, by omega, ?_⟩
+      · rcases h1 with h1 | h1
+        · right; rw [h1]; simp
+        · right; exact List.mem_cons_of_mem _ h1
+      · intro x hx
+        rcases List.mem_cons.mp hx with rfl | hx
+        · exact h2
+        · exact h3 x hx
+    · simp only [hab, if_false]
+      obtain ⟨h1, h2, h3⟩ := ih b
+      refine ⟨?_, h2, ?_⟩
+      · rcases h1 with h1 | h1
+        · left; exact h1
+        · right; exact List.mem_cons_of_mem _ h1
+      · intro x hx
+        rcases List.mem_cons.mp hx with rfl | hx
+        · omega
+        · exact h3 x hx
+
+private theorem le_one_unique {α : Type} (l : List α) (h : l.length ≤ 1) (a b : α) (ha : a ∈ l) (hb : b ∈ l) : a = b := by
+  match l, h with
+  | [], _ => simp at ha
+  | [x], _ => simp at ha hb; rw [ha, hb]
+  | _ :: _ :: _, h => simp at h
+
+/-- `tickTimer` unfolded: the minimum of the candidates, a tie when another tick is queued by then -/
+private theorem tickTimer_def (cfg : Cfg) (s : St) (c : Clock) :
+    tickTimer cfg s c =
+      match cands c with
+      | [] => .idle
+      | (t0, e0) :: rest =>
+        let best := rest.foldl (fun (b : Nat × Event) x => if x.1 < b.1 then x else b) (t0, e0)
+        let horizon := max c.now best.1
+        if ((cands c).filter fun x => decide (x.1 ≤ horizon)).length > 1 then .tie
+        else
+          let m := best.1
+          let c1 : Clock := match best.2 with
+            | .keepaliveTimerExpires => { c with now := horizon, ka := dueAt m (kaInterval cfg) }
+            | .holdTimerExpires => { c with now := horizon, hold := dueAt m (holdInterval cfg) }
+            | _ => { c with now := horizon, dop := dueAt m dopInterval }
+          .fired best.2 (step cfg s best.2) (clockExec cfg defaultOpen s c1 (actsOfEvent cfg s best.2)) := rfl
+
+/-- **(ii) the event raised is that of the timer whose tick comes first**, the clock moves to that tick (or
+stays, when the tick was queued while the session was not polled), and no other timer has a tick by then
+(else: `tie`). -/
+theorem tickTimer_fired (cfg : Cfg) (s : St) (c : Clock) (e : Event) (r : StepResult) (c' : Clock)
+    (h : tickTimer cfg s c = .fired e r c') :
+    ∃ x t, e = x.event ∧ clockGet c x = some t ∧
+      (∀ y t', y ≠ x → clockGet c y = some t' → t ≤ t' ∧ max c.now t < t') ∧
+      c'.now = max c.now t ∧ r = step cfg s e := by
+  rw [tickTimer_def] at h
+  cases hc : cands c with
+  | nil => rw [hc] at h; simp at h
+  | cons p rest =>
+    obtain ⟨t0, e0⟩ := p
+    rw [hc] at h; simp only at h; rw [← hc] at h
+    have hm := foldMin rest (t0, e0)
+    simp only at hm h
+    generalize hb : rest.foldl (fun (b : Nat × Event) x => if x.1 < b.1 then x else b) (t0, e0) = best at hm h
+    obtain ⟨bt, be⟩ := best
+    split at h
+    · cases h
+    · rename_i hlen
+      injection h with h1 h2 h3
+      have hmem : (bt, be) ∈ cands c := by
+        rw [hc]; rcases hm.1 with h | h
+        · rw [h]; simp
+        · exact List.mem_cons_of_mem _ h
+      obtain ⟨x, hx1, hx2⟩ := (mem_cands c bt be).mp hmem
+      refine ⟨x, bt, by rw [← h1]; exact hx1, hx2, ?_, ?_, by rw [← h2, ← h1]⟩
+      · intro y t' hy hyt
+        have hymem : (t', y.event) ∈ cands c := (mem_cands c t' y.event).mpr ⟨y, rfl, hyt⟩
+        have hle : bt ≤ t' := by
+          rw [hc] at hymem
+          rcases List.mem_cons.mp hymem with h | h
+          · have := hm.2.1; simp only [] at this; injection h with h _; omega
+          · exact hm.2.2 _ h
+        refine ⟨hle, ?_⟩
+        rcases Nat.lt_or_ge (max c.now bt) t' with hlt | hge
+        · exact hlt
+        · exfalso
+          have hf1 : (bt, be) ∈ (cands c).filter fun x => decide (x.1 ≤ max c.now bt) := by
+            simp [List.mem_filter, hmem]; omega
+          have hf2 : (t', y.event) ∈ (cands c).filter fun x => decide (x.1 ≤ max c.now bt) := by
+            simp [List.mem_filter, hymem]; omega
+          have := le_one_unique _ (by simp only [gt_iff_lt, Nat.not_lt] at hlen; exact hlen) _ _ hf1 hf2
+          injection this with _ h5
+          rw [hx1] at h5
+          cases x <;> cases y <;> simp [Tmr.event] at h5 hy
+      · rw [← h3, clockExec_now]
+        simp only at *
+        split <;> rfl
+
+private theorem filter_two (c : Clock) (m : Nat) (h : ((cands c).filter fun x => decide (x.1 ≤ m)).length > 1) :
+    ∃ x y tx ty, x ≠ y ∧ clockGet c x = some tx ∧ clockGet c y = some ty ∧ tx ≤ m ∧ ty ≤ m := by
+  rcases c with ⟨now, ka, hold, dop⟩
+  cases ka with
+  | none =>
+    cases hold with
+    | none => cases dop <;> simp [cands, List.filter] at h <;> (split at h <;> simp at h)
+    | some b =>
+      cases dop with
+      | none => simp [cands, List.filter] at h; split at h <;> simp at h
+      | some d =>
+        cases h1 : decide (b ≤ m) <;> cases h2 : decide (d ≤ m) <;> simp [cands, List.filter, h1, h2] at h
+        exact ⟨.hold, .dop, b, d, by decide, rfl, rfl, of_decide_eq_true h1, of_decide_eq_true h2⟩
+  | some a =>
+    cases hold with
+    | none =>
+      cases dop with
+      | none => simp [cands, List.filter] at h; split at h <;> simp at h
+      | some d =>
+        cases h1 : decide (a ≤ m) <;> cases h2 : decide (d ≤ m) <;> simp [cands, List.filter, h1, h2] at h
+        exact ⟨.ka, .dop, a, d, by decide, rfl, rfl, of_decide_eq_true h1, of_decide_eq_true h2⟩
+    | some b =>
+      cases dop with
+      | none =>
+        cases h1 : decide (a ≤ m) <;> cases h2 : decide (b ≤ m) <;> simp [cands, List.filter, h1, h2] at h
+        exact ⟨.ka, .hold, a, b, by decide, rfl, rfl, of_decide_eq_true h1, of_decide_eq_true h2⟩
+      | some d =>
+        cases h1 : decide (a ≤ m) <;> cases h2 : decide (b ≤ m) <;> cases h3 : decide (d ≤ m) <;>
+          simp [cands, List.filter, h1, h2, h3] at h
+        · exact ⟨.hold, .dop, b, d, by decide, rfl, rfl, of_decide_eq_true h2, of_decide_eq_true h3⟩
+        · exact ⟨.ka, .dop, a, d, by decide, rfl, rfl, of_decide_eq_true h1, of_decide_eq_true h3⟩
+        · exact ⟨.ka, .hold, a, b, by decide, rfl, rfl, of_decide_eq_true h1, of_decide_eq_true h2⟩
+        · exact ⟨.ka, .hold, a, b, by decide, rfl, rfl, of_decide_eq_true h1, of_decide_eq_true h2⟩
+
+/-- `tie` only when two timers have a tick by the time the first one is taken: due at the same earliest
+instant, or both queued while the session was not polled -/
+theorem tickTimer_tie (cfg : Cfg) (s : St) (c : Clock) (h : tickTimer cfg s c = .tie) :
+    ∃ x y tx ty, x ≠ y ∧ clockGet c x = some tx ∧ clockGet c y = some ty ∧
+      ∃ m, (∀ z t', clockGet c z = some t' → m ≤ t') ∧ tx ≤ max c.now m ∧ ty ≤ max c.now m := by
+  rw [tickTimer_def] at h
+  cases hc : cands c with
+  | nil => rw [hc] at h; simp at h
+  | cons p rest =>
+    obtain ⟨t0, e0⟩ := p
+    rw [hc] at h; simp only at h; rw [← hc] at h
+    have hm := foldMin rest (t0, e0)
+    simp only at hm
+    generalize hb : rest.foldl (fun (b : Nat × Event) x => if x.1 < b.1 then x else b) (t0, e0) = best at hm h
+    split at h
+    · rename_i hlen
+      obtain ⟨x, y, tx, ty, hxy, hx, hy, h1, h2⟩ := filter_two c _ hlen
+      refine ⟨x, y, tx, ty, hxy, hx, hy, best.1, ?_, h1, h2⟩
+      intro z t' hz
+      have hzm : (t', z.event) ∈ cands c := (mem_cands c t' z.event).mpr ⟨z, rfl, hz⟩
+      rw [hc] at hzm
+      rcases List.mem_cons.mp hzm with h | h
+      · injection h with h _; have := hm.2.1; omega
+      · exact hm.2.2 _ h
+    · cases h
+
+/-- `idle` exactly when none of the three timers has a next tick -/
+theorem tickTimer_idle_iff (cfg : Cfg) (s : St) (c : Clock) :
+    tickTimer cfg s c = .idle ↔ ∀ x, clockGet c x = none := by
+  rw [tickTimer_def]
+  constructor
+  · intro h x
+    cases hc : cands c with
+    | nil =>
+      cases hx : clockGet c x with
+      | none => rfl
+      | some t =>
+        have := (mem_cands c t x.event).mpr ⟨x, rfl, hx⟩
+        rw [hc] at this; simp at this
+    | cons p rest =>
+      rw [hc] at h; simp only at h
+      split at h <;> cases h
+  · intro h
+    have h1 := h .ka; have h2 := h .hold; have h3 := h .dop
+    simp only [clockGet] at h1 h2 h3
+    simp [cands, h1, h2, h3]
+
+
+/-- **(i) `tick` raises the expiry event of a timer only if that timer is running** in the session state
+(for every clock that is consistent with the state: `clockOk_ofSt`, `clockOk_input`, `clockOk_tick`, `clockOk_wait`). -/
+theorem timer_event_only_if_running (cfg : Cfg) (s : St) (c : Clock) (e : Event) (r : StepResult) (c' : Clock)
+    (hc : ClockOk s c) (h : tickTimer cfg s c = .fired e r c') :
+    ∃ x, e = x.event ∧ running s x = true := by
+  obtain ⟨x, t, he, hx, _⟩ := tickTimer_fired cfg s c e r c' h
+  exact ⟨x, he, hc x t hx⟩
+
+/-- `ClockOk` is kept by a timer firing through `tick` … -/
+theorem clockOk_tick (cfg : Cfg) (s s' : St) (c c' : Clock) (e : Event) (ok : Bool) (outs : List Out)
+    (hc : ClockOk s c) (h : tickTimer cfg s c = .fired e (.next s' ok outs) c') : ClockOk s' c' := by
+  obtain ⟨x, t, he, hx, _, _, hr⟩ := tickTimer_fired cfg s c e _ c' h
+  have hrun := hc x t hx
+  rw [tickTimer_def] at h
+  cases hcs : cands c with
+  | nil => rw [hcs] at h; simp at h
+  | cons p rest =>
+    obtain ⟨t0, e0⟩ := p
+    rw [hcs] at h; simp only at h; rw [← hcs] at h
+    split at h
+    · cases h
+    · injection h with h1 h2 h3
+      have hs' := step_exec cfg s s' e ok outs hr.symm
+      have hopen : openOf e = defaultOpen := by rw [he]; cases x <;> rfl
+      rw [hs', hopen, ← h3, ← h1]
+      apply clockExec_ok
+      rw [h1, he]
+      intro y ty hy
+      cases x <;> cases y <;> simp [Tmr.event, clockGet, running] at hy hrun ⊢ <;>
+        first
+        | exact hrun
+        | exact hc .ka ty hy
+        | exact hc .hold ty hy
+        | exact hc .dop ty hy
+
+/-- … and by time passing. -/
+theorem clockOk_wait (s : St) (c : Clock) (d : Nat) (hc : ClockOk s c) : ClockOk s (clockWait c d) := by
+  intro x t hx
+  cases x <;> exact hc _ t (by simpa [clockWait, clockGet] using hx)
+
+/-! ### the hold timer needs silence; the keepalive timer sends KEEPALIVEs -/
+
+/-- the peer is heard from in the sense of the HoldTimer (RFC 4271 8.2.2): a KEEPALIVE in OpenConfirm or
+Established, an UPDATE in Established -/
+def hears (st : State) : Input → Bool
+  | .msgKeepalive | .ev .keepaliveMsg => st == .openConfirm || st == .established
+  | .msgUpdate _ | .ev .updateMsg => st == .established
+  | _ => false
+
+/-- a step of a timed history: an input is handled, `tick()` lets a timer fire, or time passes un-polled -/
+inductive TStep where
+  | input (i : Input)
+  | tick
+  | wait (d : Nat)
+  deriving DecidableEq, Repr
+
+/-- session, clock, and the ghost "when the peer was last heard from" -/
+structure Timed where
+  s : St
+  c : Clock
+  heard : Nat
+  deriving Repr
+
+/-- a timer expiry as the history records it: the clock, the event, the ghost before it -/
+structure Expiry where
+  at_ : Nat
+  event : Event
+  heard : Nat
+  state : State
+  deriving Repr
+
+/-- One step; `none`: the history ends (todo!/panic arm, no timer will tick, a `select!` tie, or a wait that
+would let a second hold-timer tick fall due un-polled - the C20 precondition for the hold timer). -/
+def timedStep (cfg : Cfg) (x : Timed) : TStep → Option (Timed × List Expiry)
+  | .input i =>
+    match handleInput cfg x.s i with
+    | .next s' _ _ =>
+      some ({ s := s', c := clockInput cfg x.s x.c i, heard := if hears x.s.state i then x.c.now else x.heard }, [])
+    | _ => none
+  | .tick =>
+    match tickTimer cfg x.s x.c with
+    | .fired e (.next s' _ _) c' => some ({ x with s := s', c := c' }, [⟨c'.now, e, x.heard, x.s.state⟩])
+    | _ => none
+  | .wait d =>
+    match x.c.hold with
+    | some t => if x.c.now + d < t + holdInterval cfg then some ({ x with c := clockWait x.c d }, []) else none
+    | none => some ({ x with c := clockWait x.c d }, [])
+
+def timedRun (cfg : Cfg) : Timed → List TStep → List Expiry
+  | _, [] => []
+  | x, st :: rest =>
+    match timedStep cfg x st with
+    | some (x', evs) => evs ++ timedRun cfg x' rest
+    | none => []
+
+/-- the invariant: the hold timer's next tick is at least a hold time after the peer was last heard from -/
+private def HoldInv (cfg : Cfg) (x : Timed) : Prop :=
+  ClockOk x.s x.c ∧ x.heard ≤ x.c.now ∧ ∀ t, x.c.hold = some t → x.heard + holdInterval cfg ≤ t
+
+private theorem clockAct_hold (cfg : Cfg) (s : St) (c : Clock) (a : Act) (L : Nat) (hL : L ≤ c.now)
+    (h : ∀ t, c.hold = some t → L + holdInterval cfg ≤ t) :
+    ∀ t, (clockAct cfg s c a).hold = some t → L + holdInterval cfg ≤ t := by
+  intro t ht
+  cases a <;> simp [clockAct, dueAt] at ht <;> grind
+
+private theorem clockExec_hold (cfg : Cfg) (o : OpenInfo) (L : Nat) : ∀ (acts : List Act) (s : St) (c : Clock),
+    L ≤ c.now → (∀ t, c.hold = some t → L + holdInterval cfg ≤ t) →
+    ∀ t, (clockExec cfg o s c acts).hold = some t → L + holdInterval cfg ≤ t := by
+  intro acts
+  induction acts with
+  | nil => intro s c _ h; exact h
+  | cons a rest ih =>
+    intro s c hL h
+    simp only [clockExec]
+    exact ih _ _ (by rw [clockAct_now]; exact hL) (clockAct_hold cfg s c a L hL h)
+
+/-- in the states and for the inputs of `hears` the arm restarts the hold timer: afterwards its next tick (if it
+runs at all) is a full hold time away -/
+private theorem hears_rearms (cfg : Cfg) (s : St) (c : Clock) (i : Input) (hc : ClockOk s c) (hh : hears s.state i = true) :
+    ∀ t, (clockInput cfg s c i).hold = some t → c.now + holdInterval cfg ≤ t := by
+  have hnone : s.hold = false → c.hold = none := by
+    intro hf
+    cases hch : c.hold with
+    | none => rfl
+    | some t => have := hc .hold t (by simp [clockGet, hch]); simp [running, hf] at this
+  intro t ht
+  rcases s with ⟨st, crt, hold, ka, dop, cnt, conn, neg⟩
+  simp only at hh hnone
+  cases st <;> cases i <;> (try (rename_i e; cases e)) <;> simp [hears] at hh <;>
+    simp [clockInput, inputEvent, actsOfEvent, arm, clockExec, clockAct, kindOf, dueAt] at ht <;>
+    (cases hold <;> simp at ht hnone <;> grind)
+
+
+private theorem holdInv_step (cfg : Cfg) (x x' : Timed) (st : TStep) (evs : List Expiry) (hI : HoldInv cfg x)
+    (h : timedStep cfg x st = some (x', evs)) :
+    HoldInv cfg x' ∧ ∀ ex ∈ evs, ex.event = .holdTimerExpires → ex.heard + holdInterval cfg ≤ ex.at_ := by
+  obtain ⟨hok, hle, hhold⟩ := hI
+  cases st with
+  | input i =>
+    simp only [timedStep] at h
+    cases hh : handleInput cfg x.s i with
+    | todo => simp [hh] at h
+    | panic => simp [hh] at h
+    | next s' ok outs =>
+      simp [hh] at h
+      obtain ⟨rfl, rfl⟩ := h
+      have hnow : (clockInput cfg x.s x.c i).now = x.c.now := by
+        unfold clockInput; split
+        · exact clockExec_now _ _ _ _ _
+        · rfl
+      refine ⟨⟨clockOk_input cfg x.s s' x.c i ok outs hok hh, ?_, ?_⟩, by simp⟩
+      · simp only [hnow]; split <;> omega
+      · cases hr : hears x.s.state i with
+        | true => simp only [if_true]; exact hears_rearms cfg x.s x.c i hok hr
+        | false =>
+          simp only [Bool.false_eq_true, if_false]
+          unfold clockInput
+          split
+          · exact clockExec_hold cfg _ x.heard _ _ _ hle hhold
+          · exact hhold
+  | tick =>
+    simp only [timedStep] at h
+    cases ht : tickTimer cfg x.s x.c with
+    | idle => simp [ht] at h
+    | tie => simp [ht] at h
+    | fired e r c' =>
+      cases r with
+      | todo => simp [ht] at h
+      | panic => simp [ht] at h
+      | next s' ok outs =>
+        simp [ht] at h
+        obtain ⟨rfl, rfl⟩ := h
+        obtain ⟨y, t, he, hy, hmin, hnow, _⟩ := tickTimer_fired cfg x.s x.c e _ c' ht
+        have hok' := clockOk_tick cfg x.s s' x.c c' e ok outs hok ht
+        -- the clock after: c' = clockExec .. c1, c1 = c re-armed for y at max now t
+        have hc'hold : ∀ t', c'.hold = some t' → x.heard + holdInterval cfg ≤ t' := by
+          rw [tickTimer_def] at ht
+          cases hcs : cands x.c with
+          | nil => rw [hcs] at ht; simp at ht
+          | cons p rest =>
+            obtain ⟨t0, e0⟩ := p
+            rw [hcs] at ht; simp only at ht; rw [← hcs] at ht
+            have hm := foldMin rest (t0, e0)
+            simp only at hm
+            generalize hb : rest.foldl (fun (b : Nat × Event) z => if z.1 < b.1 then z else b) (t0, e0) = best at hm ht
+            obtain ⟨bt, be⟩ := best
+            split at ht
+            · cases ht
+            · injection ht with h1 h2 h3
+              simp only at h1 h3
+              have hbmem : (bt, be) ∈ cands x.c := by
+                rw [hcs]; rcases hm.1 with h | h
+                · rw [h]; simp
+                · exact List.mem_cons_of_mem _ h
+              rw [← h3]
+              apply clockExec_hold
+              · subst h1; cases y <;> simp [he, Tmr.event] <;> omega
+              · intro t' ht'
+                subst h1
+                rw [he] at ht' hbmem
+                cases y <;> simp [Tmr.event] at ht' hbmem
+                · exact hhold t' ht'
+                · -- the hold timer itself: re-armed one interval after its deadline
+                  obtain ⟨z, hz1, hz2⟩ := (mem_cands x.c bt _).mp hbmem
+                  cases z <;> simp [Tmr.event] at hz1
+                  simp [clockGet] at hz2
+                  have := hhold bt hz2
+                  simp [dueAt] at ht'
+                  omega
+                · exact hhold t' ht'
+        refine ⟨⟨hok', by show x.heard ≤ c'.now; rw [hnow]; omega, hc'hold⟩, ?_⟩
+        intro ex hex hev
+        simp at hex; subst hex
+        simp only at hev ⊢
+        rw [he] at hev
+        cases y <;> simp [Tmr.event] at hev
+        simp [clockGet] at hy
+        have := hhold t hy
+        omega
+  | wait d =>
+    simp only [timedStep] at h
+    cases hch : x.c.hold with
+    | none =>
+      simp [hch] at h; obtain ⟨rfl, rfl⟩ := h
+      exact ⟨⟨clockOk_wait x.s x.c d hok, by simp [clockWait]; omega, by simp [clockWait, hch]⟩, by simp⟩
+    | some t =>
+      simp [hch] at h
+      obtain ⟨_, rfl, rfl⟩ := h
+      exact ⟨⟨clockOk_wait x.s x.c d hok, by simp [clockWait]; omega, by simpa [clockWait] using hhold⟩, by simp⟩
+
+/-- **(iii) The hold timer expires only after silence.** In every timed history of a session - inputs handled at
+the current clock, `tick()` letting timers fire, time passing un-polled (within the C20 precondition of the
+hold timer) - that starts with a clock consistent with the session state (e.g. `Clock.ofSt`), whenever
+`tick()` raises HoldTimer_Expires at clock `T`, at least the configured hold time has elapsed since the
+peer was last heard from: the last KEEPALIVE received in OpenConfirm / Established or UPDATE received in
+Established (`hears`; 0 = the start of the history when there was none). -/
+theorem hold_expiry_needs_silence (cfg : Cfg) : ∀ (steps : List TStep) (x : Timed),
+    ClockOk x.s x.c → x.heard ≤ x.c.now → (∀ t, x.c.hold = some t → x.heard + holdInterval cfg ≤ t) →
+    ∀ ex ∈ timedRun cfg x steps, ex.event = .holdTimerExpires → ex.heard + holdInterval cfg ≤ ex.at_ := by
+  intro steps
+  induction steps with
+  | nil => intro x _ _ _ ex hex; simp [timedRun] at hex
+  | cons st rest ih =>
+    intro x h1 h2 h3 ex hex
+    simp only [timedRun] at hex
+    cases hs : timedStep cfg x st with
+    | none => simp [hs] at hex
+    | some p =>
+      obtain ⟨x', evs⟩ := p
+      simp only [hs, List.mem_append] at hex
+      have := holdInv_step cfg x x' st evs ⟨h1, h2, h3⟩ hs
+      rcases hex with hex | hex
+      · exact this.2 ex hex
+      · exact ih x' this.1.1 this.1.2.1 this.1.2.2 ex hex
+
+/-- the hypotheses hold for a session whose timers were started at time 0 -/
+theorem hold_expiry_needs_silence_ofSt (cfg : Cfg) (s : St) (steps : List TStep) :
+    ∀ ex ∈ timedRun cfg ⟨s, Clock.ofSt cfg s, 0⟩ steps, ex.event = .holdTimerExpires →
+      ex.heard + holdInterval cfg ≤ ex.at_ := by
+  apply hold_expiry_needs_silence cfg steps _ (clockOk_ofSt cfg s) (by simp [Clock.ofSt])
+  intro t ht
+  simp [Clock.ofSt, dueAt] at ht
+  obtain ⟨_, _, rfl⟩ := ht
+  simp
+
+/-- non-vacuity: hold time 10 s, established at 0 s; the keepalive timer fires at 3 and 6 s, a KEEPALIVE is
+heard at 6 s, 1 s passes, an UPDATE is heard at 7 s; the hold timer expires at 17 s -/
+example :
+    (timedRun ⟨false, true, true, true, [], 10, [65001]⟩ ⟨⟨.established, false, true, true, false, 0, true, none⟩,
+        ⟨0, some 3, some 10, none⟩, 0⟩
+      [.tick, .tick, .input .msgKeepalive, .wait 1, .input (.msgUpdate 1), .tick, .tick, .tick, .tick]).map
+      (fun ex => (ex.at_, ex.event, ex.heard)) =
+    [(3, .keepaliveTimerExpires, 0), (6, .keepaliveTimerExpires, 0), (9, .keepaliveTimerExpires, 7),
+     (12, .keepaliveTimerExpires, 7), (15, .keepaliveTimerExpires, 7), (17, .holdTimerExpires, 7)] := by decide
+
+/-- **The keepalive timer sends KEEPALIVEs** (RFC 4271 8.2.2, Event 11 in OpenConfirm and Established): when
+`tick()` raises KeepaliveTimer_Expires there, a KEEPALIVE is sent, nothing else changes, and the timer's next
+tick is one keepalive interval after the one taken. -/
+theorem keepalive_timer_sends_keepalive (cfg : Cfg) (s : St) (c : Clock) (r : StepResult) (c' : Clock)
+    (hs : s.state = .openConfirm ∨ s.state = .established)
+    (h : tickTimer cfg s c = .fired .keepaliveTimerExpires r c') :
+    r = .next s true [.pduKeepalive] ∧ ∃ t, c.ka = some t ∧ c'.ka = dueAt t (kaInterval cfg) ∧
+      c'.hold = c.hold ∧ c'.dop = c.dop := by
+  obtain ⟨y, t, he, hy, _, _, hr⟩ := tickTimer_fired cfg s c _ r c' h
+  cases y <;> simp [Tmr.event] at he
+  simp [clockGet] at hy
+  have hstep : step cfg s .keepaliveTimerExpires = .next s true [.pduKeepalive] := by
+    rcases s with ⟨st, crt, hold, ka, dop, cnt, conn, neg⟩
+    simp only at hs
+    rcases hs with rfl | rfl <;> simp [step, arm, kindOf, exec, execAct]
+  refine ⟨by rw [hr, hstep], t, hy, ?_⟩
+  rw [tickTimer_def] at h
+  cases hcs : cands c with
+  | nil => rw [hcs] at h; simp at h
+  | cons p rest =>
+    obtain ⟨t0, e0⟩ := p
+    rw [hcs] at h; simp only at h; rw [← hcs] at h
+    have hm := foldMin rest (t0, e0)
+    simp only at hm
+    generalize hb : rest.foldl (fun (b : Nat × Event) z => if z.1 < b.1 then z else b) (t0, e0) = best at hm h
+    obtain ⟨bt, be⟩ := best
+    split at h
+    · cases h
+    · injection h with h1 h2 h3
+      simp only at h1 h3
+      subst h1
+      have hbmem : (bt, Event.keepaliveTimerExpires) ∈ cands c := by
+        rw [hcs]; rcases hm.1 with h | h
+        · rw [h]; simp
+        · exact List.mem_cons_of_mem _ h
+      obtain ⟨z, hz1, hz2⟩ := (mem_cands c bt _).mp hbmem
+      cases z <;> simp [Tmr.event] at hz1
+      simp [clockGet, hy] at hz2
+      subst hz2
+      have hacts : actsOfEvent cfg s .keepaliveTimerExpires = [.sendKeepalive] := by
+        rcases s with ⟨st, crt, hold, ka, dop, cnt, conn, neg⟩
+        simp only at hs
+        rcases hs with rfl | rfl <;> simp [actsOfEvent, arm, kindOf]
+      rw [← h3, hacts]
+      simp [clockExec, clockAct]
+
+
+/-! ### `Clock` and the C20 timer specification
+
+Each of the three `Clock` entries is the `due` field of the abstract timer specification of C20
+(`Rc.Timer.Spec`, Rc/Model/Timer.lean; seconds here, milliseconds there): `start`, `reset` of a running timer
+and taking a tick change it exactly as `startKa/startHold/startDop`, `resetHold` and `tickTimer` change the
+entry.  The `stale` field of the specification has no counterpart in `Clock`: it becomes non-empty only when
+a timer with two un-awaited ticks is reset, which `timedStep`'s `wait` (and the driver, for the `W` lines)
+excludes for the hold timer - the only timer the session resets. -/
+
+theorem clock_start_is_timer_spec (a : Rc.Timer.Spec) : (a.call 0 .start).due = dueAt a.now a.i := by
+  simp [Rc.Timer.Spec.call, dueAt]
+
+theorem clock_reset_is_timer_spec (a : Rc.Timer.Spec) (t : Nat) (hd : a.due = some t) (hi : a.i ≠ 0) :
+    (a.call 0 .reset).due = dueAt a.now a.i := by
+  simp [Rc.Timer.Spec.call, dueAt, hd, hi]
+
+theorem clock_tick_is_timer_spec (a : Rc.Timer.Spec) (t d : Nat) (hd : a.due = some t) (hs : a.stale = none)
+    (hi : a.i ≠ 0) (hlt : t < a.now + d) : (a.await d).1.due = dueAt t a.i ∧ ∃ n, (a.await d).2 = .tick t n := by
+  by_cases h : t ≤ a.now <;> simp [Rc.Timer.Spec.await, dueAt, hd, hs, hi, h, hlt]
 
 end Rc.Thm.C08
